@@ -12,10 +12,7 @@
 // Checked per state: result value == exact result; result within [-(2^D-1), 2^D-1] (or [0, 2^D-1])
 // where D and signedness are read from the *result type*; numeric_limits of the result type
 // report exactly that range.
-#include "common.h"
-
-#include <cnl/elastic_integer.h>
-#include <cnl/wide_integer.h>
+#include "cnlval.h"
 
 template<int D, bool S, class Fam>
 using EI = cnl::elastic_integer<D, std::conditional_t<S, typename Fam::s, typename Fam::u>>;
@@ -36,45 +33,16 @@ struct FamW {
     static constexpr const char* name = "wide";
 };
 
-// read any elastic_integer value exactly
+// read / build any elastic_integer value exactly (handles built-in, wrapped and multi-limb storage)
 template<class E>
 Big value_of(E const& e)
 {
-    using rep0 = cnl::_impl::rep_of_t<E>;
-    if constexpr (vals::is_int_v<rep0>) {
-        return Big(cnl::_impl::to_rep(e));
-    } else {
-        // multi-word storage: peel 32-bit chunks of the magnitude
-        auto r = cnl::_impl::to_rep(e);
-        bool neg = r < 0;
-        auto m = neg ? -r : r;
-        Big out(0);
-        int sh = 0;
-        while (m != 0) {
-            auto chunk = static_cast<unsigned long long>(m & 0xffffffffull);
-            out = out + Big(chunk).shl(sh);
-            m = m >> 32;
-            sh += 32;
-        }
-        return neg ? -out : out;
-    }
+    return cv::int_value(e);
 }
 template<class E>
 E make(Big const& v)
 {
-    using rep = cnl::_impl::rep_of_t<E>;
-    if constexpr (vals::is_int_v<rep>) {
-        return E{v.template to<rep>()};
-    } else {
-        rep r{0};
-        Big m = v.abs();
-        for (int i = (m.bit_length() + 31) / 32 - 1; i >= 0; --i) {
-            r = static_cast<rep>(r << 32);
-            r = static_cast<rep>(r | rep{static_cast<unsigned long long>(m.shr_trunc(32 * i).low128() & 0xffffffffull)});
-        }
-        if (v.neg) r = static_cast<rep>(-r);
-        return E{r};
-    }
+    return cv::make_int<E>(v);
 }
 
 template<class Res>
